@@ -16,6 +16,7 @@
 -/
 import MptModel.Lemmas.HeapElem
 import MptModel.Lemmas.HeapHist
+import MptModel.Impl.HeapXX
 import MptModel.Spec.Tokens
 namespace Mpt.C05
 open Mpt Mpt.Heap
@@ -191,6 +192,31 @@ def exactly_once_statement : Prop :=
 def ctor_failure_statement : Prop :=
   ∀ (s : State) (live : Tokens.Live) (h n : Nat), InvE s → TokInv s live → h < s.hs.length →
     match detachOp s h n with
+    | .fault _ => False
+    | .ok s' _ => ∃ live', replay live (s'.log.drop s.log.length) = some live' ∧ TokInv s' live'
+    | .fail s' _ => ∃ live', replay live (s'.log.drop s.log.length) = some live' ∧ TokInv s' live'
+
+/-! ### C++ layer -/
+
+/-- token element type of the C++ harness (`Elem`, 4 bytes) -/
+def xe : Traits := { id := 13, size := 4, init := true, fini := some 3 }
+
+/-- `resize(6); resize(2)` on a `typed_array<Elem>`: `buffer::trim` destroys exactly the four removed elements
+    (the input on which the doubled offset of `buffer::trim` was found) -/
+example :
+    (match uResize { hs := [none], wins := [none] } 0 { t := xe, unique := false } 6 with
+     | .ok s1 _ => (match uResize s1 0 { t := xe, unique := false } 2 with
+       | .ok s2 _ => s2.log.drop 6
+       | _ => [])
+     | _ => []) = [Ev.fini 3, Ev.fini 4, Ev.fini 5, Ev.fini 6] := by decide
+
+/-- exactly-once for `buffer::trim` / `buffer::skip` / `content<T>::set_length` and the typed wrappers: stated
+    only; the C++ part of the correspondence (kinds te, ue) checks legality of the log after every call -/
+def cxx_exactly_once_statement : Prop :=
+  ∀ (s : State) (live : Tokens.Live) (h n : Nat) (k : XKind), InvE s → TokInv s live → h < s.hs.length →
+    k.t.init = true → k.t.fini.isSome = true →
+    ∀ r, (r = uResize s h k n ∨ r = xTrim s h k n ∨ r = xSkip s h k n ∨ r = uInsert s h k (Int.ofNat n) none none) →
+    match r with
     | .fault _ => False
     | .ok s' _ => ∃ live', replay live (s'.log.drop s.log.length) = some live' ∧ TokInv s' live'
     | .fail s' _ => ∃ live', replay live (s'.log.drop s.log.length) = some live' ∧ TokInv s' live'
